@@ -263,6 +263,19 @@ def guards_of(node, stop):
     """Canonical conditions that hold whenever `node` executes inside `stop` (a FunctionDef or loop): tests of enclosing ifs (negated for
     the else side) and negations of earlier guard clauses (`if c: return/raise/break/continue`) in the enclosing blocks."""
     out = set()
+
+    def add(t, positive):
+        # a conjunction that holds contributes its conjuncts; a disjunction that fails contributes the negations of its disjuncts
+        if positive and isinstance(t, ast.BoolOp) and isinstance(t.op, ast.And):
+            for v in t.values:
+                add(v, True)
+        elif not positive and isinstance(t, ast.BoolOp) and isinstance(t.op, ast.Or):
+            for v in t.values:
+                add(v, False)
+        elif isinstance(t, ast.UnaryOp) and isinstance(t.op, ast.Not):
+            add(t.operand, not positive)
+        else:
+            out.add(canon_test(t if positive else ast.UnaryOp(op=ast.Not(), operand=t)))
     cur = node
     while cur is not stop and cur is not None:
         par = getattr(cur, '_parent', None)
@@ -272,13 +285,12 @@ def guards_of(node, stop):
             blk = getattr(par, fld, None)
             if isinstance(blk, list) and cur in blk:
                 if isinstance(par, ast.If):
-                    t = par.test if fld == 'body' else ast.UnaryOp(op=ast.Not(), operand=par.test)
-                    out.add(canon_test(t))
+                    add(par.test, fld == 'body')
                 for prev in blk[:blk.index(cur)]:
                     if isinstance(prev, ast.If) and _always_exits(prev.body) and not prev.orelse:
-                        out.add(canon_test(ast.UnaryOp(op=ast.Not(), operand=prev.test)))
+                        add(prev.test, False)
                     elif isinstance(prev, ast.If) and prev.orelse and _always_exits(prev.orelse) and not _always_exits(prev.body):
-                        out.add(canon_test(prev.test))
+                        add(prev.test, True)
         cur = par
     return out
 
@@ -296,3 +308,15 @@ def inline(node, defs, depth=3):
                 return T(self.d - 1).visit(copy.deepcopy(strip_cast(defs[n.id])))
             return n
     return T(depth).visit(copy.deepcopy(node))
+
+
+def canon_expr(n):
+    """blank-free text of an arithmetic expression with the operands of + chains and * chains sorted"""
+    def flat(x, op):
+        if isinstance(x, ast.BinOp) and isinstance(x.op, op):
+            return flat(x.left, op) + flat(x.right, op)
+        return [x]
+    if isinstance(n, ast.BinOp) and isinstance(n.op, (ast.Add, ast.Mult)):
+        parts = sorted(canon_expr(p) for p in flat(n, type(n.op)))
+        return '(' + ('+' if isinstance(n.op, ast.Add) else '*').join(parts) + ')'
+    return src(n).replace(' ', '')
